@@ -585,6 +585,16 @@ def WellFormed (ir : List Int × List PyDict) : Prop := ir.1.length = 3
 def ltTriP (a b : List Int × List PyDict) : Bool := ltIds a.1 b.1
 def ltIdP (a b : Int × PyDict) : Bool := decide (a.1 < b.1)
 
+/-- keep, for every key, the value of its LAST entry (at the position of its first entry): what a Python dict
+holds after `for k,v in l: d[k] = v` -/
+def lastWins {α β} [DecidableEq α] (l : List (α × β)) : List (α × β) :=
+  l.foldl (fun acc kv => upsert kv.1 kv.2 acc) []
+
+/-- [phase 3] the interactions table of a log in which a triple may be logged more than once: the last record of a
+triple counts (`int_rows[ids] = record`), evaluations ordered by their ids -/
+def specInteractionsLW (rnd : Rat → Rat) (txs : List Tx) : List Row :=
+  (sortBy ltTriP (lastWins (t4sOf txs))).flatMap (specRowsOf rnd)
+
 /-- the interactions table a log of `txs` must produce: the evaluations ordered by their ids, each
 with exactly its rows -/
 def specInteractions (rnd : Rat → Rat) (txs : List Tx) : List Row :=
@@ -601,6 +611,11 @@ def specParams (rnd : Rat → Rat) (t : Tbl) (txs : List Tx) : List Row :=
 
 /-- every row is a Python dict: no field name twice -/
 def RowsNodup (rows : List PyDict) : Prop := ∀ r ∈ rows, (r.map (·.1)).Nodup
+
+/-- [phase 3] the params of one id when it is recorded several times: the dictionaries are merged in log order
+(`rows[id].update(params)`: later values win, fields only recorded earlier stay) -/
+def unionParams (rnd : Rat → Rat) (id : Int) (ps : List (Int × PyDict)) : Row :=
+  (ps.filter (fun ip => ip.1 = id)).foldl (fun acc ip => update acc (normParams rnd ip.2)) []
 
 /-- the transaction list of a run as coba produces it: the preamble is not repeated, every component
 and every triple is recorded once, evaluation records are well-formed, params keys stay distinct as
